@@ -60,6 +60,8 @@ def strategy(tier):
       (1, st.tuples(st.just('advance'), st.sampled_from([3000, 5000])).map(list)),
       (5, st.tuples(st.just('schedule_same'), st.integers(0, 30)).map(list)),
       (5, st.tuples(st.just('cancel'), st.integers(0, 30)).map(list)),
+      # another greenlet schedules an action, a few turns of the event loop from now (i.e. while the worker is between two of its own steps)
+      (3, st.tuples(st.just('spawn'), st.integers(-8, 40), st.integers(0, 3)).map(list)),
       (6, st.tuples(st.just('advance'), st.integers(0, 40)).map(list)),
   )
   return st.fixed_dictionaries({
@@ -85,6 +87,7 @@ def execute(plan):
     q = TimerQueue(time_source=loop.now, resolution=res)
     settle()
     entries = []
+    spawned_errors = []
     runlog = []
     busy_spans = []      # (start, end, entry id) of callbacks that kept the loop busy
     flags_busy = set()
@@ -158,6 +161,8 @@ def execute(plan):
       return e
 
     def check(final=False):
+      if spawned_errors:
+        raise spawned_errors[0]
       n = now_u()
       pos = dict((eid, i) for i, eid in enumerate(runlog))
       for e in entries:
@@ -228,6 +233,18 @@ def execute(plan):
           do_schedule(src.T, ['plain'])
       elif op[0] == 'cancel':
         do_cancel(op[1])
+      elif op[0] == 'spawn':
+        def later(delta=op[1], turns=op[2]):
+          try:
+            for _ in range(turns):
+              gevent.sleep(0)
+            epoch[0] += 1
+            do_schedule(now_u() + delta, ['plain'])
+            epoch[0] += 1
+          except Violation as v:
+            spawned_errors.append(v)
+        gevent.spawn(later)
+        flags_busy.add(3)
       elif op[0] == 'advance':
         target = EPOCH + (now_u() + op[1]) * unit
         d = target - loop.now()
@@ -254,6 +271,8 @@ def execute(plan):
     classes.append('action_schedules_or_cancels')
   if 1 in flags_busy:
     classes.append('callback_kept_the_loop_busy')
+  if 3 in flags_busy:
+    classes.append('scheduled_from_another_greenlet')
   if 2 in flags_busy:
     classes.append('after_65k_earlier_schedule_calls')
   return Outcome(nontrivial=sorted(flags) if flags else None, classes=classes)
